@@ -147,8 +147,8 @@ def where_of(rec, op):
     shape for values."""
     o = rec["obs"]
     if o["kind"] == "error":
-        m = re.search(r" @ ([\w.]+):(\w+):", rec["detail"] + " ")
-        return "%s:%s" % (m.group(1), m.group(2)) if m else "?"
+        m = re.search(r" @ ([\w.]+):(\w+):(L\w+):", rec["detail"] + " ")
+        return "%s:%s:%s" % (m.group(1), m.group(2), m.group(3)) if m else "?"
     return op.shape
 
 
@@ -175,7 +175,7 @@ def judge(ctx, recs, label):
     keys = sorted(groups)
     ndrift = 0
     nrej = 0
-    chunk = 6000
+    chunk = 16000
     for base in range(0, len(keys), chunk):
         part = keys[base:base + chunk]
         traces = [[groups[k]["ev"]] for k in part]
@@ -192,8 +192,9 @@ def judge(ctx, recs, label):
             ctx.note_drift(
                 "outcome %s of %s is not produced by the code-shaped pipeline "
                 "(pinned or repaired)" % (obs_name(r["obs"]),
-                                          "+".join("%s/%s/%s/%s" % dkey(d)
-                                                   for d in r["defects"])
+                                          "+".join("%s/%s/%s" % (
+                                              d["k"], d["site"], d["cls"])
+                                              for d in r["defects"])
                                           or "valid response"),
                 {"op": r["label"], "detail": r["detail"][:200]})
         for k, v in zip(part, verdicts):
@@ -240,7 +241,7 @@ def run(ctx):
             label="every pipeline run terminates; no stage is stuck "
             "(single-defect cells, liveness)")
     sens = []
-    leaks = ["ErrCodeInt", "IntInf", "NullInArray", "ResultIndexing"]
+    leaks = ["ErrCodeInt", "IntInf", "NullInArray"]
     if not quick:
         leaks = ["ErrCodeInt", "IntInf", "NullInArray", "ArraySizeInt",
                  "CimvalueRaw", "RetvalParamtypeKey", "PullEmptyResponse",
